@@ -243,6 +243,51 @@ func runC04(c *core.Ctx) {
 		})
 	})
 
+	// lines whose length sits on the boundaries of read buffers (4096) and of the scanner (64 KiB),
+	// as last line of the file with and without a final line terminator, as entry and as heading
+	c.RunPart("l3-line-lengths", 10*time.Minute, func(c *core.Ctx) {
+		for _, L := range []int{4095, 4096, 4097, 8191, 8192, 8193, 12288, 16384, 60000} {
+			for _, kind := range []string{"entry", "heading"} {
+				for _, eol := range []string{"", "\n", "\r\n"} {
+					for _, pos := range []string{"last", "middle"} {
+						var b gen.Book
+						b = append(b, gen.Recipe{Name: "first", Ents: []gen.Ent{{Name: "x", Val: gen.N("1")}}})
+						var line string
+						if kind == "entry" {
+							name := "p" + strings.Repeat("q", L-7) + "z" // "  name: 1" is L bytes
+							b[0].Ents = append(b[0].Ents, gen.Ent{Name: name, Val: gen.N("1")})
+							line = "  " + name + ": 1"
+						} else {
+							name := "h" + strings.Repeat("q", L-3) + "z" // "name:" is L bytes
+							b = append(b, gen.Recipe{Name: name})
+							line = name + ":"
+						}
+						text := "first:\n  x: 1\n" + line + eol
+						if pos == "middle" {
+							if eol == "" {
+								continue
+							}
+							b = append(b, gen.Recipe{Name: "tail", Ents: []gen.Ent{{Name: "y", Val: gen.N("2")}}})
+							text += "tail:\n  y: 2\n"
+						}
+						for _, chunk := range []int{0, 1, 4096, 4095} {
+							evs, ret, pnc := parseWith(&countingReader{data: []byte(text), limit: -1, chunk: chunk})
+							c.Eval(1)
+							c.Count("boundary_length_cases", 1)
+							c.Nontrivial("len", fmt.Sprint(L), kind, eol, pos, fmt.Sprint(chunk))
+							rep := map[string]any{"line_bytes": L, "line_kind": kind, "line_terminator": eol, "position": pos, "reader_chunk": chunk}
+							if pnc != "" {
+								c.Violation("ParseStreamCallback|panic", clip(pnc, 300), rep)
+							} else if class, msg := compareParsed(evs, ret, b); class != "" {
+								c.Violation("ParseStreamCallback|"+class, fmt.Sprintf("%s line of %d bytes (%s, terminator %q, reader chunk %d): %s", kind, L, pos, eol, chunk, clip(msg, 200)), rep)
+							}
+						}
+					}
+				}
+			}
+		}
+	})
+
 	if c.InChild() {
 		return
 	}
